@@ -72,6 +72,7 @@ def const(v, sort):
     return T("const", (v,), sort)
 
 
+NAN = T("nan", (), "Real")        # concrete (replay) mode only: a NaN/inf value observed in a real output
 TRUE = const(True, "Bool")
 FALSE = const(False, "Bool")
 
@@ -92,6 +93,7 @@ def _coerce(a, b):
 
 
 def add(a, b):
+    if a.op == "nan" or b.op == "nan": return NAN
     if a.sort != b.sort: a, b = _coerce(a, b)
     if a.is_const and b.is_const: return const(a.val + b.val, a.sort)
     if a.is_const and a.val == 0: return b
@@ -101,6 +103,7 @@ def add(a, b):
 
 
 def neg(a):
+    if a.op == "nan": return a
     if a.is_const: return const(-a.val, a.sort)
     if a.op == "neg": return a.args[0]
     return T("neg", (a,), a.sort)
@@ -110,6 +113,7 @@ def sub(a, b): return add(a, neg(b))
 
 
 def mul(a, b):
+    if a.op == "nan" or b.op == "nan": return NAN
     if a.sort != b.sort: a, b = _coerce(a, b)
     if a.is_const and b.is_const: return const(a.val * b.val, a.sort)
     for x, y in ((a, b), (b, a)):
@@ -189,6 +193,7 @@ def _leaves_const(t):
 
 
 def _cmp0(op, a, b):
+    if a.op == "nan" or b.op == "nan": return FALSE          # every ordered comparison / equality with NaN is false
     if a.is_const and b.is_const:
         if CONCRETE["on"] and a.sort == "Real" and op == "eq":
             x, y = float(a.val), float(b.val)
@@ -445,7 +450,9 @@ def conc_array(x):
     s = sort_of(x.dtype)
     a = np.empty(x.shape, dtype=object)
     if s == "Real":
-        for idx in np.ndindex(*x.shape): a[idx] = const(Fraction(float(x[idx])), s)
+        for idx in np.ndindex(*x.shape):
+            v = float(x[idx])
+            a[idx] = const(Fraction(v), s) if math.isfinite(v) else NAN
     elif s == "Bool":
         for idx in np.ndindex(*x.shape): a[idx] = const(bool(x[idx]), s)
     else:
